@@ -1,6 +1,7 @@
 \* export (quick): sequences of two submissions to three shards whose retries move back-off state
 CONSTANTS
   ShardLists <- MCThreeShards
+  Deployments <- MCDepRoute
   Instants = {0, 1, 2}
   Scenes = {"submit"}
   ChainKinds = {"x509"}
